@@ -5,6 +5,11 @@ proof side    : Props/C10.lean (flux_step_formula, stencil_centred, lagrange_wei
                 Props/C10Gen.lean (tie by translation: Generated/FluxGen.lean = `flux_advection` regenerated from the source on every
                 run; gen_flux_advection_eq / _sum: generated = Model `fluxAdvection` = Σ_k coeffs[k]·vals[i,j,k] for all sizes,
                 other entries untouched; gen_flux_step_formula)
+                Props/C10Gen2.lean (tie by translation: Generated/LagValsGen.lean = `general_get_lagrange_vals` regenerated on every run
+                [int array `shifts`, `(i - s) % nz` on a possibly negative integer = non-negative remainder, `empty_like`, the whole-array
+                assignment `new_q[:] = (qVals + thetaShifts[j]) % (2*pi)` as the element-wise loop, spline evaluation uninterpreted];
+                gen_lagrange_vals_eq: generated = Model `getLagrangeVals` on the len(qVals) theta indices, untouched elsewhere;
+                gen_lagrange_vals_entry: vals[(i-s_j) mod nz, k, j] = E((q_k + thetaShift_j) % 2pi))
 correspondence: real `FluxSurfaceAdvection(...).step(f, cIdx, rIdx)` of /repo vs. the ℚ model (Drivers/C10.lean: `flux_setup`
                 = `_getLagrangePts`, `flux_step` = the two loops).  Contracts passed to the model as exact rationals: the
                 theta-spline coefficients the real interpolator produces for every row, `zDist = -v*bz*dt` and the reduced
@@ -558,7 +563,9 @@ def run(chk):
                 'displacement; distinct by (family, nz, nq, spline degree/flag, nL, displacement or sub-seed)')
     # Props/C10Gen.lean is about Generated/FluxGen.lean = `flux_advection` as the source says it NOW: regenerate it first
     common.run_translator(chk, 'translate_pure.py', '--only', 'flux')
-    chk.proof_side(build=not getattr(chk, 'no_build', False), extra_props=('C10Gen',))
+    # Props/C10Gen2.lean: Generated/LagValsGen.lean = `general_get_lagrange_vals` (the table `flux_advection` contracts)
+    common.run_translator(chk, 'translate_pure.py', '--only', 'lagvals')
+    chk.proof_side(build=not getattr(chk, 'no_build', False), extra_props=('C10Gen', 'C10Gen2'))
     drv = common.LeanDriver('C10.lean')
     stats = {'worst': 0.0, 'shifts_agree': 0, 'closed_form_checked': 0, 'interp': 0.0}
     rng = chk.rng
